@@ -30,8 +30,11 @@ LEVEL_TEXT = ("Lean 4 theorems: (i) under the ranked lock hierarchy no waits-for
               "invariant 'count = places pointing at the request + references held by running code; nothing points at a released request' is preserved by every reference-moving "
               "primitive (freerq_inv, newrqref_inv, cacheFill/Clear_inv, qPush_inv, slotFill/Clear_inv) and by the release paths built from them: slot release "
               "(freerqoutdata_inv), dropping a cache entry incl. cancelling the in-flight copy (removeclientrq_inv), queueing a reply (sendreply_inv), queueing a request for a server incl. both identifier scans and the failure exit (sendrq_inv), handing replies to the transport "
-              "(popReplies_inv) and client disconnect (removeclient_inv), after which the client's cache and queue are empty (removeclient_clears). PARTIAL: for radsrv/replyh/clientwr as "
-              "wholes the invariant is evaluated (not proved) on the model after every operation, and on the real objects after every operation by the monitor.")
+              "(popReplies_inv) and client disconnect (removeclient_inv), after which the client's cache and queue are empty (removeclient_clears); for radsrv, replyh and one "
+              "scheduling of clientwr as wholes (radsrv_inv, replyh_inv, writerOp_good), for server removal (rmserver_good) and then for EVERY history of operations from a freshly "
+              "configured proxy (history_good / history_counts over World.step; history_rmclient_clears, history_rmserver_clears). The driver executes every op line also through "
+              "World.step and flags any disagreement, and the monitor evaluates the same balance on the real objects after every operation. PARTIAL: true concurrency inside an "
+              "operation and condition-variable protocols are outside the model.")
 LEVEL_NOTE = ("Trusted: Lean kernel + std axioms, harness (lock recording by call-site expression, request accounting by allocation site), generators. NOT covered: true concurrency "
               "(data races, interleavings inside radsrv/replyh/clientwr), condition-variable protocols, TLS/TCP reader threads. ASan reports use-after-free/double free on every run.")
 TECHNIQUE = "Lean 4 proof (rank argument; heap primitives) + executable invariant on model and implementation after every step + recorded lock-order pairs checked against the Lean rank table"
